@@ -36,10 +36,12 @@ func resizeAlphabet(quick bool) []O {
 		{K: pagedrv.OReopenWith, A: 64},
 		{K: pagedrv.OReopenWith, A: 96},
 		{K: pagedrv.OReopenWith, A: 128, B: 1},
+		{K: pagedrv.OReopenWith, A: 96, B: 1},
+		{K: pagedrv.OReopenWith, A: 64, B: 1},
 		{K: pagedrv.OReopenWith, A: 0},
 	}
 	if !quick {
-		a = append(a, O{K: pagedrv.OReopenWith, A: 96, B: 1}, O{K: pagedrv.OReopenWith, A: 64, B: 1}, O{K: pagedrv.OFreeAll}, O{K: pagedrv.OFlushTx}, O{K: pagedrv.OAlloc, A: 40})
+		a = append(a, O{K: pagedrv.OFreeAll}, O{K: pagedrv.OFlushTx}, O{K: pagedrv.OAlloc, A: 40})
 	}
 	return a
 }
@@ -82,11 +84,24 @@ func runC14(ctx *core.Ctx, pool *par.Pool) {
 	var total xstate.Stats
 	resizes, probes := 0, 0
 	kinds := map[string]int{}
-	for _, cfg := range cfgs {
-		cfg := cfg
-		ctx.Share(ctx.Budget() / time.Duration(len(cfgs)))
+	// seed: 100 written pages on a file whose limit was raised to 128 (bounded start) resp. on the unbounded file:
+	// every smaller limit tried afterwards leaves live pages beyond it
+	seedBig := seed{"100-pages", []O{{K: pagedrv.OReopenWith, A: 128}, {K: pagedrv.OBegin}, {K: pagedrv.OAlloc, A: 100}, {K: pagedrv.OWriteAll}, {K: pagedrv.OSetRoot, A: 0}, {K: pagedrv.OCommit}}}
+	seedBigU := seed{"100-pages", []O{{K: pagedrv.OBegin}, {K: pagedrv.OAlloc, A: 100}, {K: pagedrv.OWriteAll}, {K: pagedrv.OSetRoot, A: 0}, {K: pagedrv.OCommit}}}
+	var runs []bfsRun
+	for _, c := range cfgs {
+		runs = append(runs, bfsRun{c, seedEmpty, depth})
+		if c.MaxPages == 0 {
+			runs = append(runs, bfsRun{c, seedBigU, depth - 2})
+		} else {
+			runs = append(runs, bfsRun{c, seedBig, depth - 2})
+		}
+	}
+	for _, run := range runs {
+		cfg := run.Cfg
+		ctx.Share(ctx.Budget() / time.Duration(len(runs)))
 		var grown []*xstate.Node
-		st := xstate.BFS(ctx, pool, xstate.Spec{Cfg: cfg, Alphabet: resizeAlphabet(ctx.Quick()), MaxDepth: depth, Flags: []string{"c14"},
+		st := xstate.BFS(ctx, pool, xstate.Spec{Cfg: cfg, Seed: run.Seed.Ops, Alphabet: resizeAlphabet(ctx.Quick()), MaxDepth: run.Depth, Flags: []string{"c14"},
 			OnTransition: func(from *xstate.Node, s *xstate.Succ, isNew bool, to *xstate.Node) {
 				sampleHook(ctx, cfg)(from, s, isNew, to)
 				if s.Op.K == pagedrv.OReopenWith && !s.Dead {
@@ -120,7 +135,7 @@ func runC14(ctx *core.Ctx, pool *par.Pool) {
 			}})
 		total.States += st.States
 		total.Transitions += st.Transitions
-		ctx.Set("depth_"+cfg.Name, st.Depth)
+		ctx.Set("depth_"+run.name(), st.Depth)
 		xstate.RunProbes(ctx, pool, cfg, grown, "capacity", nil, []string{"c14"}, func(n *xstate.Node, r *xstate.ProbeResult) { probes++ })
 	}
 	ctx.Unshare()
